@@ -1406,6 +1406,9 @@ func loadFunc(ctx *blockCtx, recv *types.Var, name string, d *ast.FuncDecl, genB
 			} else {
 				loadFuncBody(ctx, fn, body, nil, d)
 			}
+		} else {
+			// gogen cannot print a function that was never given a body (WriteTo panics)
+			ctx.handleErr(ctx.newCodeError(d.Pos(), "missing function body"))
 		}
 	}
 }
